@@ -526,7 +526,9 @@ def convert_nglob_to_regex(
         #   so a named wildcard never captures a trailing separator.
         star_name = star_names.get(len(parts) - 1)
         if star_name is not None or parts[-1] == r"[^/]*":
-            body = r"[^/]+" if len(parts) >= 2 and parts[-2].endswith("/") else r"[^/]*"
+            # A preceding `**/` also ends in a separator whenever it matches anything.
+            after_sep = len(parts) >= 2 and (parts[-2].endswith("/") or parts[-2] == r"(?:.*/|)")
+            body = r"[^/]+" if after_sep else r"[^/]*"
             parts[-1] = rf"(?P<{star_name}>{body})" if star_name is not None else body
             parts.append("/?")
 
